@@ -18,7 +18,7 @@ RULE = (
     "refusal; distinct = hash of parameters and layout; non-trivial = >=2 samples in the holder"
 )
 ASSUMPTIONS = ["a value-preserving widening of a parameter dtype on load is accepted, a narrowing never"]
-REQUIRED = {"cli_runs_with_equal_file_names": {"quick": 6, "thorough": 100}, "partial_roundtrips_checked": {"quick": 60, "thorough": 1200}, "roundtrips_checked": {"quick": 200, "thorough": 5000}, "samples_compared": {"quick": 2000, "thorough": 50000}, "roundtrips_ge_10_samples": {"quick": 60, "thorough": 1500}, "concats_checked": {"quick": 60, "thorough": 1500}, "cli_runs": {"quick": 20, "thorough": 400}, "refusals_checked": {"quick": 150, "thorough": 3000}, "refused_saves_checked": {"quick": 80, "thorough": 1500}}
+REQUIRED = {"roundtrips_with_two_sample_classes_of_one_name": {"quick": 40, "thorough": 300}, "cli_runs_with_equal_file_names": {"quick": 6, "thorough": 100}, "partial_roundtrips_checked": {"quick": 60, "thorough": 1200}, "roundtrips_checked": {"quick": 200, "thorough": 5000}, "samples_compared": {"quick": 2000, "thorough": 50000}, "roundtrips_ge_10_samples": {"quick": 60, "thorough": 1500}, "concats_checked": {"quick": 60, "thorough": 1500}, "cli_runs": {"quick": 20, "thorough": 400}, "refusals_checked": {"quick": 150, "thorough": 3000}, "refused_saves_checked": {"quick": 80, "thorough": 1500}}
 N_CASES = {"quick": 800, "thorough": 9600}
 
 ADV = [5e-324, -5e-324, 1e-310, 0.0, -0.0, 1.0 + 2**-52, 1.0 - 2**-53, 0.1, 1e300, -1e300, 1e-300, 16777217.0, 3.141592653589793, 2.0**-150]
@@ -82,6 +82,33 @@ def run_shard(rec, tier, seed, shard, nshards):
     rng = kit.rng_for(seed, NUM, shard)
     n_cases = N_CASES[tier] // nshards
     with kit.scratch_dir("vf-c10-") as tmp:
+        # ---- a user's module defines a sample type with the SAME CLASS NAME as a shipped one (vf/lab_models.py): a
+        #      collection comes back as the class it was saved from, and predicts as that class
+        from .. import lab_models as LAB
+        from batchie.models.sparse_combo import SparseDrugComboMCMCSample as SHIPPED
+
+        for li in range(4 if tier == "quick" else 30):
+            kw = gen.realistic_screen_kwargs(rng, n_samples=(1, 4), n_drugs=(2, 5), n_rows=(3, 20), n_plates=(1, 3), observed="all")
+            screen = Screen(**kw)
+            sp = ExperimentSpace.from_screen(screen)
+            n_ = int(rng.integers(1, 4))
+            base = [gen.random_sparse_combo_theta(rng, sp.n_unique_samples, max(1, sp.n_unique_treatments), scale=1.0) for _ in range(n_)]
+            for cls_ in ((SHIPPED, LAB.SparseDrugComboMCMCSample) if li % 2 == 0 else (LAB.SparseDrugComboMCMCSample, SHIPPED)):
+                h = ThetaHolder(n_thetas=n_)
+                for t_ in base:
+                    h.add_theta(t_ if cls_ is SHIPPED else cls_(W=t_.W, W0=t_.W0, V2=t_.V2, V1=t_.V1, V0=t_.V0, alpha=t_.alpha, precision=t_.precision))
+                fn_ = os.path.join(tmp, "same-name.h5")
+                rec.case(("same-class-name", li, cls_.__module__), nontrivial=True)
+                try:
+                    h.save_h5(fn_)
+                    g = ThetaHolder(n_thetas=n_).load_h5(fn_)
+                except Exception as e:
+                    rec.violation("C10/roundtrip/raises", "save / load of a collection of %s.%s raised %r" % (cls_.__module__, cls_.__name__, e), {"class": cls_.__module__})
+                    continue
+                rec.count("roundtrips_with_two_sample_classes_of_one_name")
+                rec.count("oracle_evals")
+                ok_ = len(g.thetas) == n_ and all(type(x) is cls_ for x in g.thetas) and all(np.array_equal(np.asarray(a.predict_viability(screen)), np.asarray(b.predict_viability(screen))) for a, b in zip(h.thetas, g.thetas))
+                rec.check(ok_, "C10/roundtrip/sample-type-changed", lambda: "a collection of %s.%s came back as %r (or predicts differently)" % (cls_.__module__, cls_.__name__, sorted(set(type(x).__module__ + "." + type(x).__name__ for x in g.thetas))), {"class": cls_.__module__})
         for ci in range(n_cases):
             kind = str(rng.choice(["sparse", "sparse", "interaction"]))
             kw = gen.realistic_screen_kwargs(rng, n_samples=(1, 4), n_drugs=(2, 5), n_rows=(3, 20), n_plates=(1, 3), observed="all", p_double_control=0.05)
